@@ -136,22 +136,26 @@ func (c *Collector) RecordRequest(endpoint *domain.Endpoint, status string, late
 
 func (c *Collector) RecordConnection(endpoint *domain.Endpoint, delta int) {
 	now := time.Now().UnixNano()
-	data := c.getOrInitEndpoint(endpoint, now)
 
-	if delta > 0 {
-		atomic.AddInt64(&data.activeConnections, int64(delta))
-	} else if delta < 0 {
-		for {
-			current := atomic.LoadInt64(&data.activeConnections)
-			newVal := current + int64(delta)
+	// The gauge is adjusted under the map's per-key lock, the same lock evictIfIdle takes, so
+	// housekeeping can never drop a record between the lookup and the adjustment and lose the count.
+	c.endpoints.Compute(endpoint.URLString, func(data *endpointData, loaded bool) (*endpointData, xsync.ComputeOp) {
+		if !loaded {
+			data = newEndpointData(endpoint, now)
+		}
+		atomic.StoreInt64(&data.lastUsed, now)
+
+		if delta > 0 {
+			atomic.AddInt64(&data.activeConnections, int64(delta))
+		} else if delta < 0 {
+			newVal := atomic.LoadInt64(&data.activeConnections) + int64(delta)
 			if newVal < 0 {
 				newVal = 0
 			}
-			if atomic.CompareAndSwapInt64(&data.activeConnections, current, newVal) {
-				break
-			}
+			atomic.StoreInt64(&data.activeConnections, newVal)
 		}
-	}
+		return data, xsync.UpdateOp
+	})
 }
 
 func (c *Collector) RecordDiscovery(endpoint *domain.Endpoint, success bool, latency time.Duration) {
@@ -316,22 +320,36 @@ func (c *Collector) updateLatencyBounds(data *endpointData, latencyMs int64) {
 	}
 }
 
+func newEndpointData(endpoint *domain.Endpoint, now int64) *endpointData {
+	return &endpointData{
+		url:                endpoint.URLString,
+		name:               endpoint.Name,
+		lastUsed:           now,
+		minLatency:         -1,
+		totalRequests:      xsync.NewCounter(),
+		successfulRequests: xsync.NewCounter(),
+		failedRequests:     xsync.NewCounter(),
+		totalBytes:         xsync.NewCounter(),
+		totalLatency:       xsync.NewCounter(),
+	}
+}
+
 func (c *Collector) getOrInitEndpoint(endpoint *domain.Endpoint, now int64) *endpointData {
-	key := endpoint.URLString
-	data, _ := c.endpoints.LoadOrCompute(key, func() (newValue *endpointData, cancel bool) {
-		return &endpointData{
-			url:                key,
-			name:               endpoint.Name,
-			lastUsed:           now,
-			minLatency:         -1,
-			totalRequests:      xsync.NewCounter(),
-			successfulRequests: xsync.NewCounter(),
-			failedRequests:     xsync.NewCounter(),
-			totalBytes:         xsync.NewCounter(),
-			totalLatency:       xsync.NewCounter(),
-		}, false
+	data, _ := c.endpoints.LoadOrCompute(endpoint.URLString, func() (newValue *endpointData, cancel bool) {
+		return newEndpointData(endpoint, now), false
 	})
 	return data
+}
+
+// evictIfIdle drops an endpoint's record unless attempts are still in flight to it: the record
+// holds the connection gauge, and least-connections routing reads a missing record as zero.
+func (c *Collector) evictIfIdle(url string) {
+	c.endpoints.Compute(url, func(data *endpointData, loaded bool) (*endpointData, xsync.ComputeOp) {
+		if !loaded || atomic.LoadInt64(&data.activeConnections) > 0 {
+			return data, xsync.CancelOp
+		}
+		return data, xsync.DeleteOp
+	})
 }
 
 func (c *Collector) tryCleanup(now int64) {
@@ -360,7 +378,7 @@ func (c *Collector) cleanup(now int64) {
 	})
 
 	for _, url := range toRemove {
-		c.endpoints.Delete(url)
+		c.evictIfIdle(url)
 	}
 
 	if count-len(toRemove) > MaxTrackedEndpoints {
@@ -378,7 +396,7 @@ func (c *Collector) cleanup(now int64) {
 		})
 		remove := len(ages) - MaxTrackedEndpoints + 100
 		for i := 0; i < remove && i < len(ages); i++ {
-			c.endpoints.Delete(ages[i].url)
+			c.evictIfIdle(ages[i].url)
 		}
 		c.logger.Debug("Cleaned up old endpoint stats", "removed", remove, "remaining", len(ages)-remove)
 	}
